@@ -1,6 +1,7 @@
 """C14 — diffraction-pattern geometry: parity helpers of abtem/waves.py (deductive tier); the array clauses are bounded."""
 
-from pyvc.contracts import Alt, Bool, Const, Int, Str, Tup
+from pyvc.contracts import Alt, Bool, Const, Int, Obj, Opq, Real, Str, Tup
+from pyvc.values import ExternalFn
 from pyvc.runner import native_replay as _nr
 from pyvc.runner import run_property
 
@@ -34,8 +35,95 @@ SPECS = {
 }
 
 
+# ---- geometry of a diffraction pattern: limits / offset / angular limits / angular coordinates ------------------------------
+MM = "abtem/measurements.py"
+ME = "abtem/core/energy.py"
+DP = Obj(MM, "DiffractionPatterns", {
+    "shape": Tup(Int, Int), "_sampling": Tup(Real, Real), "_fftshift": Const(True), "array": Opq("ndarray"),
+    "_get_from_metadata": Const(ExternalFn("metadata-stub", lambda I, a, k: 1)),  # the energy entry; only its wavelength matters
+})
+_E0 = 80e3  # energy used for native replays / the CPython cross-check (the contract is independent of its value)
+
+
+def _build_dp(f):
+    import abtem
+    import numpy as np
+
+    return abtem.DiffractionPatterns(np.zeros(tuple(int(n) for n in f["shape"]), dtype=np.float32),
+                                     sampling=tuple(float(x) for x in f["_sampling"]), fftshift=True, metadata={"energy": _E0})
+
+
+def _native_ufr(name, *args):
+    from abtem.core.energy import energy2wavelength
+    from pyvc.native import R
+
+    return R(float(energy2wavelength(_E0)))
+
+
+def _gen_dp(rng):
+    return dict(self=dict(shape=[rng.randint(1, 12), rng.randint(1, 12)], _sampling=[rng.uniform(0.01, 0.3), rng.uniform(0.01, 0.3)],
+                          _fftshift=True, array=None, _get_from_metadata=None))
+
+
+# assumed callee contract (the function itself is under contract in C24): the wavelength of the pattern's energy is a positive number
+WAVELENGTH = dict(module=ME, qualname="energy2wavelength", params={}, requires=[],
+                  ensures=[("positive", "result > 0 and result == ufr('wavelength')")], returns=Real, modular=True)
+_REQ = ["self.shape[0] >= 1 and self.shape[1] >= 1", "self._sampling[0] > 0 and self._sampling[1] > 0"]
+_LAM = "ufr('wavelength')"
+GEOMETRY = {
+    "DiffractionPatterns.limits": dict(
+        module=MM, qualname="DiffractionPatterns.limits", params=dict(self=DP), requires=_REQ,
+        ensures=[
+            # zero frequency sits at index n // 2 of the shifted pattern: lowest frequency -(n // 2) s, highest ((n - 1) // 2) s
+            ("lowest-axis0", "result[0][0] == -(self.shape[0] // 2) * self._sampling[0]"), ("lowest-axis1", "result[1][0] == -(self.shape[1] // 2) * self._sampling[1]"),
+            ("highest-axis0", "result[0][1] == ((self.shape[0] - 1) // 2) * self._sampling[0]"), ("highest-axis1", "result[1][1] == ((self.shape[1] - 1) // 2) * self._sampling[1]"),
+            ("span-is-n-minus-1-pixels-axis0", "result[0][1] - result[0][0] == (self.shape[0] - 1) * self._sampling[0]"), ("span-is-n-minus-1-pixels-axis1", "result[1][1] - result[1][0] == (self.shape[1] - 1) * self._sampling[1]"),
+        ],
+        cross_check=True,
+    ),
+    "DiffractionPatterns.offset": dict(
+        module=MM, qualname="DiffractionPatterns.offset", params=dict(self=DP), requires=_REQ,
+        ensures=[("offset-is-lowest-frequency-axis0", "result[0] == -(self.shape[0] // 2) * self._sampling[0]"), ("offset-is-lowest-frequency-axis1", "result[1] == -(self.shape[1] // 2) * self._sampling[1]")],
+        cross_check=True,
+    ),
+    "DiffractionPatterns.angular_limits": dict(
+        module=MM, qualname="DiffractionPatterns.angular_limits", params=dict(self=DP), requires=_REQ,
+        ensures=[
+            ("lowest-axis0", f"result[0][0] == -(self.shape[0] // 2) * self._sampling[0] * {_LAM} * 1e3"), ("lowest-axis1", f"result[1][0] == -(self.shape[1] // 2) * self._sampling[1] * {_LAM} * 1e3"),
+            ("highest-axis0", f"result[0][1] == ((self.shape[0] - 1) // 2) * self._sampling[0] * {_LAM} * 1e3"), ("highest-axis1", f"result[1][1] == ((self.shape[1] - 1) // 2) * self._sampling[1] * {_LAM} * 1e3"),
+        ],
+        cross_check=True,
+    ),
+    "DiffractionPatterns.angular_coordinates": dict(
+        module=MM, qualname="DiffractionPatterns.angular_coordinates", params=dict(self=DP), requires=_REQ,
+        # cancellation instances (pure real arithmetic, proved valid on their own before use): the linspace step x times
+        # m = n - 1 equals the span K m, hence x == K
+        pure_lemmas=[f"implies(self.shape[{a}] - 1 >= 1 and (result[{a}][1] - result[{a}][0]) * (self.shape[{a}] - 1) == "
+                     f"(self._sampling[{a}] * {_LAM} * 1e3) * (self.shape[{a}] - 1), "
+                     f"result[{a}][1] - result[{a}][0] == self._sampling[{a}] * {_LAM} * 1e3)" for a in (0, 1)],
+        ensures=[
+            ("count", "len(result[0]) == self.shape[0] and len(result[1]) == self.shape[1]"),
+            # pixel j of the shifted pattern is the scattering angle (j - n // 2) x angular sampling, zero at j == n // 2
+        ] + [(f"pixel-angle-axis{a}", f"forall(lambda j: result[{a}][j] == (j - self.shape[{a}] // 2) * self._sampling[{a}] * {_LAM} * 1e3, "
+                                        f"0, self.shape[{a}])") for a in (0, 1)],
+        cross_check=True,
+    ),
+    "DiffractionPatterns.max_angles": dict(
+        module=MM, qualname="DiffractionPatterns.max_angles", params=dict(self=DP), requires=_REQ,
+        ensures=[("half-width-axis0", f"result[0] == (self.shape[0] // 2) * self._sampling[0] * {_LAM} * 1e3"), ("half-width-axis1", f"result[1] == (self.shape[1] // 2) * self._sampling[1] * {_LAM} * 1e3")],
+        cross_check=False,
+    ),
+}
+for _s in GEOMETRY.values():
+    _s.update(native_build={"self": _build_dp}, native_helpers={"ufr": _native_ufr}, native_gen=_gen_dp, cross_check=True)
+# angular_coordinates returns float32 arrays: the native comparison allows float32 rounding of values up to ~1e3 mrad
+GEOMETRY["DiffractionPatterns.angular_coordinates"]["native_tol"] = dict(rel=2e-6, abs=1e-4)
+SPECS.update(GEOMETRY)
+
+
 def run(tier="quick", seed=0):
-    return run_property(PROPERTY, SPECS, tier, seed)
+    return run_property(PROPERTY, SPECS, tier, seed, registry={(ME, "energy2wavelength"): WAVELENGTH},
+                        bounded_standins=["centred crops, fftshift relation, block_direct, angle-limited grids on real waves: bounded/c14.py"])
 
 
 def native_replay(case):
